@@ -27,7 +27,10 @@ Lemma covariate_coef_repr cfg p : dens_ok cfg p -> rom_covariate_coef cfg (aggr_
 Proof.
   intros [Hl Hy Hx]. unfold rom_covariate_coef, theta_of.
   rewrite (covariate_var_repr cfg p Hl Hx), (covariate_cov_repr cfg p Hl Hy Hx). nR.
-  destruct (Req_EM_T (svar (linX cfg p) p) 0); reflexivity.
+  destruct (Req_EM_T (svar (linX cfg p) p) 0) as [E|E].
+  - (* the zero test, whichever way round the source writes it *)
+    repeat match goal with |- context [Req_EM_T ?a ?b] => destruct (Req_EM_T a b); try congruence end; reflexivity.
+  - repeat match goal with |- context [Req_EM_T ?a ?b] => destruct (Req_EM_T a b); try congruence end; reflexivity.
 Qed.
 
 Lemma lin_const_one_aux f l r : cnt l <> 0 -> lin f (fun _ => 1) l r = f r.
